@@ -649,6 +649,7 @@ func c09Session(c *Ctx, gen string, p *profile.Profile, lines []string, real boo
 		ui.inReport = false
 		results = append(results, r)
 		if _, isS := r.(tS); !isS {
+			ui.lastFail = true
 			return fmt.Errorf("report did not complete")
 		}
 		ui.lastFail = err != nil
@@ -837,7 +838,7 @@ func runC09(c *Ctx) {
 	piece := func() string {
 		return PickS(r, []string{"", "", "+", "-", "x", " "}) + PickS(r, digits) + PickS(r, unitsuf)
 	}
-	for k := 0; k < c.Budget(500, 20000); k++ {
+	for k := 0; k < c.Budget(500, 10000); k++ {
 		var f string
 		switch r.Intn(6) {
 		case 0:
@@ -885,7 +886,7 @@ func runC09(c *Ctx) {
 	}
 	// --- applyURL
 	genQuery := c09QueryGen(r)
-	for k := 0; k < c.Budget(600, 20000); k++ {
+	for k := 0; k < c.Budget(600, 10000); k++ {
 		c09URL(c, "url-random", genQuery())
 	}
 	for _, q := range []string{"", "%", "a=%zz", "n=5&n=x", "n=x&n=5", "tf=99999999999999999999", "ti=1:99999999999999999999", "=", "&&", "n", "n=", "trim=maybe", "nf=nan", "sort=zz", "g=lines", "g=zz"} {
@@ -902,7 +903,7 @@ func runC09(c *Ctx) {
 		}
 		c09Session(c, "session-pool", p, []string{l}, false)
 	}
-	for k := 0; k < c.Budget(600, 40000); k++ {
+	for k := 0; k < c.Budget(600, 20000); k++ {
 		p := c09Profile(r, false)
 		var lines []string
 		for j := 1 + r.Intn(4); j > 0; j-- {
